@@ -394,7 +394,7 @@ func rtWorker(fd map[string]string, cases []rtCase, seed int64, exoticEvery int)
 func routesCampaign(r *ev.Run) {
 	cfg, exoticEvery := "Routes_q", 4
 	if r.Tier == "thorough" {
-		cfg, exoticEvery = "Routes_t", 3
+		cfg, exoticEvery = "Routes_t", 16
 	}
 	var mu sync.Mutex
 	cases := map[string]rtCase{}
